@@ -1137,7 +1137,66 @@ func (g *gen) defValueDescriptions() *srcDef {
 	return d
 }
 
-const unknownPunct = ":,|@+-()[];=<>%!?*&^~{}#$/'"
+// single-character tokens of unknown lines: every printable ASCII character that starts neither an
+// identifier nor a number, except the dot (the class [upunct] of Dbc/Printer.v) - the double quote and
+// the backslash included: discardLine reads TOKENS up to the line end, a quote is a token like any other
+const unknownPunct = ":,|@+-()[];=<>%!?*&^~{}#$/'\"\\`"
+
+// a string literal inside an unknown line. Parser.discardLine does not read it as a string: the quotes,
+// the backslashes and the words / numbers / characters between them are scanned as tokens, so the
+// content is made of pieces that the scanner accepts in any order - words, decimal numbers (followed by
+// a separator: "1e", "1_", "0x" are scanner errors), spaces, tabs, punctuation (no dot), apostrophes,
+// escaped quotes (any count, odd or even), backslashes before other characters, multi-byte UTF-8 -
+// and holds no line end. It denotes nothing: the line yields its one UnknownDef, the next line is parsed
+// as if the string were not there.
+func (g *gen) genUnknownString() string {
+	const punct = ";:,|@()[]+-/%$#!?*'`{}<>=~^& "
+	var b strings.Builder
+	b.WriteByte('"')
+	afterNum := false
+	sep := func() {
+		if afterNum {
+			b.WriteByte(punct[g.r.Intn(len(punct))])
+			afterNum = false
+		}
+	}
+	for i, n := 0, g.r.Intn(9); i < n; i++ {
+		switch g.r.Intn(9) {
+		case 0, 1: // escaped quote
+			b.WriteString(`\"`)
+			afterNum = false
+		case 2: // backslash before something else
+			b.WriteByte('\\')
+			afterNum = false
+		case 3: // number
+			sep()
+			b.WriteString(strconv.Itoa(1 + g.r.Intn(9999))) // no leading zero ("09", "0x", "0b" are scanner errors)
+			if g.r.Intn(3) == 0 {
+				b.WriteString("." + digits(g.r, 1+g.r.Intn(2), false))
+			}
+			afterNum = true
+		case 4:
+			b.WriteString(utf8Samples[g.r.Intn(len(utf8Samples))])
+			afterNum = false
+		case 5:
+			b.WriteByte(punct[g.r.Intn(len(punct))])
+			afterNum = false
+		case 6:
+			b.WriteString([]string{" ", "\t", "'", "''"}[g.r.Intn(4)])
+			afterNum = false
+		default: // word
+			sep()
+			w := g.freshIdent()
+			if len(w) > 12 {
+				w = w[:12]
+			}
+			b.WriteString(w)
+		}
+	}
+	sep() // a number is not glued to the closing quote's successor either
+	b.WriteByte('"')
+	return b.String()
+}
 
 func (g *gen) defUnknown() *srcDef {
 	d := &srcDef{kind: "unknown", mode: modeLine}
@@ -1151,7 +1210,9 @@ func (g *gen) defUnknown() *srcDef {
 	d.ident(kw)
 	n := g.r.Intn(8) // 1..8 tokens, keyword included
 	for i := 0; i < n; i++ {
-		switch g.r.Intn(4) {
+		switch g.r.Intn(5) {
+		case 4:
+			d.str(g.genUnknownString(), false)
 		case 0:
 			if g.r.Intn(3) == 0 {
 				d.ident(keywords[g.r.Intn(len(keywords))])
@@ -1171,6 +1232,17 @@ func (g *gen) defUnknown() *srcDef {
 		default:
 			d.punct(string(unknownPunct[g.r.Intn(len(unknownPunct))]), false)
 		}
+	}
+	quotes, hasStr := 0, false
+	for _, t := range d.toks {
+		quotes += strings.Count(t.text, `"`)
+		hasStr = hasStr || t.kind == kStr
+	}
+	if hasStr {
+		d.tags = append(d.tags, "unknown-line-with-string")
+	}
+	if quotes%2 == 1 {
+		d.tags = append(d.tags, "unknown-line-odd-number-of-quotes")
 	}
 	d.build = func(d *srcDef) dbc.Def { return &dbc.UnknownDef{Pos: d.toks[0].pos, Keyword: dbc.Keyword(kw)} }
 	return d
